@@ -283,8 +283,13 @@ def _gen_conc(rng):
     nblk = rng.choice([1, 1, 1, 2])
     used, blocks = set(), []
     p_good = rng.choice([0.3, 0.5, 0.7])
-    for _ in range(nblk):
-        s, *_ = _block(rng, nsvc, uuids, retries, used, consistent_only=rng.random() < 0.85, p_good=p_good)
+    first = None
+    for i in range(nblk):
+        if i > 0 and rng.random() < 0.25:
+            # second locator for the same content: both readers share one cache entry
+            s, *_ = _block(rng, nsvc, uuids, retries, used, p_good=p_good, blk=first)
+        else:
+            s, first, *_ = _block(rng, nsvc, uuids, retries, used, consistent_only=rng.random() < 0.85, p_good=p_good)
         blocks.append(s)
     sched = []
     nreaders = rng.randint(2, 4)
@@ -316,7 +321,7 @@ def _gen_seg(rng):
 
 
 def generate(rng, tier):
-    scale = 1 if tier == "quick" else 25
+    scale = 1 if tier == "quick" else 12
     cases = []
     for _ in range(900 * scale):
         cases.append(_gen_sess(rng))
